@@ -91,6 +91,12 @@ def gen_scenario(seed, k):
             "tape_seed": r.getrandbits(48),
         })
     sc = {"params": p, "mode": mode, "runs": runs, "aux_seed": r.getrandbits(32)}
+    focus = os.environ.get("VERIF_C20_FOCUS")
+    if focus == "wonly":
+        # development aid: only the worker count varies (FIFO order, warm caches, steady clock)
+        sc["mode"] = "map"
+        sc["runs"] = [dict(runs[0], W=W, order_mode="fifo", exec_shuffle=False, cache_mode="keep",
+                           clock_jumpy=False, p_nonzero=0.0) for W in (16, 4)]
     return sc
 
 
